@@ -15,8 +15,8 @@ from harness.core import Case, enc_bool, enc_bytes
 PROP = 'C16'
 EXHAUSTIVE = True
 RULE = ('SocketConnection: every sequence over {open, peer send, peer close, thread step, read, close} of length <= 6 (quick) / '
-        '<= 8 (thorough) starting with open, plus random sequences up to 60 steps; QueueConnection: sequences over {open, user put, '
-        'close, wait, send} with MTU in {None, 1, 3, 4095}; real socketpairs (SEQPACKET, DGRAM, STREAM): bursts, disconnect, reopen, timeout '
+        '<= 8 (thorough) starting with open, plus random sequences up to 60 steps and bursts of 1100..5000 frames to a late consumer; QueueConnection: sequences over {open, user put, '
+        'close, wait, send} with MTU in {None, 1, 3, 4095}; real socketpairs (SEQPACKET, DGRAM, STREAM): bursts (50 frames read at once; 3000 frames to a late consumer), disconnect, reopen, timeout '
         'lower bounds. non-trivial = at least one frame sent by the peer and one read (distinct case lines)')
 ASSUMPTIONS = ['the scripted socket / selector / queue subclass only add hand-off points; the thread body, the queue and wait_frame are the real ones',
                'wall-clock lower bounds are measured on real sockets with short timeouts (not proved)']
@@ -44,6 +44,13 @@ def gen_cases(tier, seed):
                                     if rnd.random() < 0.15 else [STEP_SEND, STEP_THREAD, STEP_THREAD, STEP_GET]))
         blobs = [bytes(rnd.randrange(256) for _ in range(rnd.randrange(1, 5))) for _ in range(steps.count(STEP_SEND))]
         yield Case(1601, [0] + steps, blobs, 'socket random')
+    # a late consumer: the peer sends a long burst (more than any plausible internal bound: 1500 / 5000 frames) which the receiver thread takes
+    # in while nobody reads; then close (the thread must end), or the consumer wakes up and reads everything in order
+    for nburst, tail in ((1500, [STEP_CLOSE]), (1500, [STEP_GET] * 3 + [STEP_CLOSE, STEP_OPEN, STEP_SEND] + [STEP_THREAD] * 3 + [STEP_GET]),
+                         (5000 if tier != 'quick' else 1100, [STEP_PCLOSE] + [STEP_THREAD] * 3 + [STEP_GET, STEP_CLOSE])):
+        steps = [STEP_OPEN] + [STEP_SEND, STEP_THREAD, STEP_THREAD, STEP_THREAD] * nburst + tail
+        blobs = [bytes([i & 0xFF, (i >> 8) & 0xFF, 7]) for i in range(steps.count(STEP_SEND))]
+        yield Case(1601, [0] + steps, blobs, 'socket long burst, late consumer')
     # datagram flavour: empty datagrams are frames (no peer close)
     for _ in range(300 if tier == 'quick' else 5000):
         steps = [STEP_OPEN] + [rnd.choice([STEP_SEND, STEP_THREAD, STEP_THREAD, STEP_GET]) for _ in range(rnd.randrange(3, 25))]
@@ -128,8 +135,9 @@ def run_socket_case(c):
     uconn.selectors = types.SimpleNamespace(DefaultSelector=FakeSel, EVENT_READ=1)
     try:
         conn = uconn.SocketConnection(sock)
-        conn.rxqueue = HQ()
+        conn.rxqueue = HQ(maxsize=getattr(conn.rxqueue, 'maxsize', 0))     # the hand-off point added, the queue's own bound (none) kept
         blobs = list(c.blobs)
+        stuck = []
         out = []
         alive = False
 
@@ -138,10 +146,15 @@ def run_socket_case(c):
 
         def after_release():
             """wait until the rx thread parks again or dies"""
+            t0 = time.monotonic()
             while True:
                 if S.done.acquire(timeout=0.002):
                     return True
                 if not thread_alive():
+                    return False
+                if time.monotonic() - t0 > 5.0:
+                    # alive, yet neither parked at a hand-off point nor finished: the thread blocks inside select / recv / put
+                    stuck.append(S.point)
                     return False
 
         def start_hook():
@@ -176,6 +189,8 @@ def run_socket_case(c):
                 if thread_alive():
                     S.go.release()
                     after_release()
+                    if stuck:
+                        return ['STUCK', stuck[0]]
                 out.append(0)
             elif st == STEP_GET:
                 try:
@@ -189,13 +204,13 @@ def run_socket_case(c):
                 t = threading.Thread(target=conn.close)
                 t.start()
                 n = 0
-                while t.is_alive() and n < 500:
+                while t.is_alive() and n < 500 and not stuck:
                     if thread_alive():
                         S.go.release()
                         after_release()
                     t.join(0.002)
                     n += 1
-                t.join(10)
+                t.join(10 if not stuck else 0.5)
                 if t.is_alive():
                     return ['HANG']
                 out.append(0)
@@ -337,6 +352,59 @@ def run_real(kind):
         except Exception:
             pass
     problems += run_real_blocking(typ)
+    problems += run_real_late_consumer(typ, False)
+    problems += run_real_late_consumer(typ, True)
+    return problems
+
+
+def run_real_late_consumer(typ, consume):
+    """the peer sends a long burst while nobody reads (the consumer is late): then either close() must still end the receiver thread, or the
+    late consumer gets every frame, in order"""
+    import threading
+    from udsoncan.connections import SocketConnection
+    from udsoncan.exceptions import TimeoutException
+    problems = []
+    a, b = socket.socketpair(socket.AF_UNIX, typ)
+    conn = SocketConnection(a)
+    n = 3000
+    try:
+        conn.open()
+        b.setblocking(False)
+        frames = [bytes([i & 0xFF, (i >> 8) & 0xFF, 0x5A]) for i in range(n)]
+        sent, t_last = 0, time.monotonic()
+        while sent < n and time.monotonic() - t_last < 2.0:
+            try:
+                b.send(frames[sent])
+                sent += 1
+                t_last = time.monotonic()
+            except (BlockingIOError, InterruptedError):
+                time.sleep(0.001)       # the socket is full: the receiver thread has to take frames out first
+        time.sleep(0.2)
+        if consume:
+            got = []
+            try:
+                while len(b''.join(got)) < 3 * sent:
+                    got.append(conn.wait_frame(timeout=2, exception=True))
+            except TimeoutException:
+                pass
+            if typ == socket.SOCK_STREAM:
+                if b''.join(got) != b''.join(frames[:sent]):
+                    problems.append('late consumer: %d bytes delivered of the %d the peer sent (or other bytes)' % (len(b''.join(got)), 3 * sent))
+            elif got != frames[:sent]:
+                problems.append('late consumer: %d frames delivered of the %d the peer sent (or in another order)' % (len(got), sent))
+        th = threading.Thread(target=conn.close, daemon=True)
+        th.start()
+        th.join(10)
+        if th.is_alive():
+            problems.append('close() did not return with %d frames sent to a consumer that %s' % (sent, 'had read them' if consume else 'was not reading'))
+        elif conn.rxthread is not None and conn.rxthread.is_alive():
+            problems.append('receiver thread alive after close() (%d frames sent to a late consumer)' % sent)
+    finally:
+        for x in (a, b):
+            try:
+                x.close()
+            except Exception:
+                pass
     return problems
 
 
@@ -397,6 +465,8 @@ def oracle(c, r):
         return None
     if r and r[0] == 'HANG':
         return ('close-hangs', 'close() did not return')
+    if r and r[0] == 'STUCK':
+        return ('receiver-thread-blocked', 'the receiver thread blocked for good inside %r: frames the peer sends from now on are not delivered and close() cannot end the thread' % (r[1],))
     if c.entry == 1601:
         # FIFO: delivered frames are a prefix of the frames the peer sent
         blobs = list(c.blobs)
